@@ -74,6 +74,9 @@ LOOPS = {
     'recursion': 'trace__ [1]; f = { call f }; call f; trace__ [2];',
     'spawn.sleep': 'trace__ [1]; [] spawn { while {true} do { sleep 0.01 } }; trace__ [2];',
     'spawn.chain': 'trace__ [1]; g = { [] spawn g }; [] spawn g; trace__ [2];',
+    'for.empty': 'trace__ [1]; for "_i" from 0 to 100000000 do { }; trace__ [2];',
+    'for.empty.step0': 'trace__ [1]; for "_i" from 0 to 1 step 0 do { }; trace__ [2];',
+    'spawn.longsleep': 'trace__ [1]; [] spawn { sleep 5 }; trace__ [2];',
     'foreach.big': 'trace__ [1]; a = []; a resize 50; { { { _y = 1 } forEach a } forEach a } forEach a; trace__ [2];',
 }
 def nonterm_case(h, name, text):
@@ -134,7 +137,7 @@ def run(ctx):
         oblig.witness_check(ob, recs, lambda rr: rr['verdict'] == 'ok' and rr.get('n'), 'a path through all runs'); obs.append(ob)
     rt.CFG_LOGIC[0] = None
     # (1b) non-terminating programs end by the limit (clock step chosen by the solver from {3,7,20} ms)
-    r = oblig.run('limit.fires', [('nt.' + k, nonterm_case(h, k, t)) for k, t in LOOPS.items()], ctx, funcs, '%d non-terminating / long-running programs (while, for step 0, recursion, spawned sleep loop, mutually spawning scripts, waitUntil, triple forEach), max_runtime 200 ms, clock advancing 3 / 7 / 20 ms per reading' % len(LOOPS),
+    r = oblig.run('limit.fires', [('nt.' + k, nonterm_case(h, k, t)) for k, t in LOOPS.items()], ctx, funcs, '%d non-terminating / long-running programs (while, for step 0, for with an empty body, recursion, spawned sleep loop, one long sleep, mutually spawning scripts, waitUntil, triple forEach), max_runtime 200 ms, clock advancing 3 / 7 / 20 ms per reading' % len(LOOPS),
                   assumptions=['clock advances by a fixed step per reading in this obligation (a free clock makes the sleep/wake-up comparisons fork exponentially)'], case_timeout=900, keyfn=lambda cid, v, rr: 'limit.fires:%s' % cid, step_limit=6_000_000,
                   budget_is_violation='program under max_runtime does not end', replayfn=lambda cid, v, rr: dict(kind='native_time', max_runtime_ms=300, gap_ms=0, hex=LOOPS[cid[3:]].encode().hex(), expect='abort', timeout=20))
     if r:
